@@ -8,6 +8,7 @@ mod codec;
 mod exec;
 mod proj;
 mod qdyn;
+mod quinnh;
 mod sched;
 mod sim;
 mod simquic;
@@ -30,6 +31,7 @@ fn main() {
         "sim" => sim::run_scenarios(&args[2], &args[3]),
         "qdyn" => qdyn::run(&args[2], &args[3]),
         "sched" => sched::run(&args[2], &args[3]),
+        "quinn" => quinnh::run(&args[2], &args[3]),
         other => Err(format!("unknown sub-command {other}")),
     };
     if let Err(e) = r {
